@@ -5,6 +5,7 @@ FUNCTIONS = [
     'circus.watcher:Watcher.reap_processes',
     'circus.watcher:Watcher.spawn_process',
     'circus.watcher:Watcher._start',
+    'circus.watcher:Watcher.manage_processes',
 ]
 LEMMAS = []
 FRAMES = [
@@ -15,8 +16,8 @@ FRAMES = [
 ASSUMPTIONS = ['A-PY', 'T-KERNEL wait-status layout (Linux)', 'T-PSUTIL', 'A-ZMQSEND', 'A-HOOKPURE', 'A-PIDREUSE']
 TRUSTED = []
 NOT_DECIDED = ['PUB/SUB delivery', 'event payload times',
-               'event/table invariant over manage_processes (its silent dead-removal is candidate finding F-13; '
-               'manage_processes is not yet under contract)']
+               'kill events for workers terminated by manage_processes / remove_expired_processes (kill_process promises '
+               'the signals, not the published kill event)']
 DESIGN_REF = 'DESIGN.md section 8, C09'
 TECHNIQUE = 'contract-based deductive verification (ghost event logs attached at the real notify_event calls; wait-status arithmetic)'
 LEVEL_TEXT = ('reap_process publishes exactly one reap event per adopted pid with exit_code equal to the decoded '
